@@ -101,6 +101,36 @@ WHAT = {
     "C19-4": "tree.py `to_dict`: `.copy()` dropped on the two index maps (recorded entries share the live tree's maps)",
     "C19-5": "smc/samplers/base.py `sample`: first-resample guard `<` -> `<=`",
     "C19-6": "distributions.py `outlier_prior`: guard tests `outlier_prob_not != 0` (log(0) at --outlier-prob 1.0)",
+    "C02-4": "tree.py `get_subtree`: per-node payload copy dropped (extracted tree shares log_p / log_r with its source)",
+    "C02-5": "tree/utils.py `_np_conv_dims`: normalisation by the global maximum instead of the per-sample maximum",
+    "C02-6": "tree/utils.py `_convolve_two_children`: direct/FFT dispatch threshold lowered from 1000 to 200",
+    "C05-4": "pyclone.py `_setup_cluster_df`: `drop_duplicates()` before the projection onto per-mutation columns (cluster sizes multiplied by the number of samples)",
+    "C05-5": "pyclone.py `log_pyclone_binomial_pdf`: `norm_const` hoisted out of the genotype loop",
+    "C05-6": "pyclone.py `_create_loaded_pyclone_data_dict`: per-sample lookups replaced by `itertuples(index=False)` in file order",
+    "C09-4": "smc/utils.py `interleave_lists`: two-list fast path with independently drawn slots (valid but non-uniform orders)",
+    "C09-5": "tree.py `get_descendants`: `source or ROOT` (clone 0 is falsy)",
+    "C09-6": "smc/utils.py `log_pdf`: early `return 0.0` for a tree without clones",
+    "C10-4": "map.py `get_map_clonal_prev`: `.copy()` dropped (the parent's CCF entry is decremented in place)",
+    "C10-5": "map.py `compute_log_D`: memoised with the order-insensitive `list_of_np_cache` (back-pointers of another child order served)",
+    "C10-6": "map.py `compute_log_S`: `np.maximum.accumulate(log_D)` without `axis=1`",
+    "C11-4": "process_trace.py `count_topology`: `chain_num` not updated when a better score is seen",
+    "C11-5": "process_trace.py `create_topology_dataframe`: `ignore_index=True` dropped from `sort_values` (ids are first-appearance indices)",
+    "C11-6": "tree.py `Tree.__hash__`: hashes the outlier *list* (equal trees hash differently)",
+    "C13-4": "concentration.py `__init__`: `self.b = a`",
+    "C13-5": "distributions.py `TreeJointDistribution.__eq__/__hash__`: identity-based (caches no longer keyed on alpha)",
+    "C13-6": "concentration.py `sample`: prior-draw guard `num_clusters == 0` -> `<= 1`",
+    "C14-4": "tree/utils.py `compute_log_S`: running log-sum accumulated into the cached `log_D` for > 2 children",
+    "C14-5": "utils.py `NumpyTwoArraysHasher.__init__`: key = (shape, digest_a XOR digest_b)",
+    "C14-6": "distributions.py `FSCRPDistribution.__hash__`: hashes `_c_const` instead of alpha",
+    "C16-4": "consensus.py `clade_probabilities`: `get_clades` memoised per Newick string (forgets mutation placement)",
+    "C16-5": "process_trace.py `count_topology`: `count += 1` only when the score does not improve",
+    "C16-6": "consensus.py `clean_tree`: nodes with an empty own-mutation set spliced out",
+    "C18-4": "run.py `instantiate_and_seed_RNG`: `if seed:` (seed 0 taken as unseeded)",
+    "C18-5": "fully_adapted.py `_init_dist`: `trees = list(set(trees))` (hash-seed-dependent order)",
+    "C18-6": "run.py `run`: pool size `min(num_chains, usable CPUs)` (chains share a worker and its caches)",
+    "C20-4": "run.py `run`: trace rewritten after every finished chain",
+    "C20-5": "process_trace.py: cluster table moved out of the pickle into `<out>.clusters.tsv`, attached on read if present",
+    "C20-6": "run.py `run`: chains collected so far are written before a worker's exception is re-raised",
 }
 
 # what the check did the first time it met the change (before any strengthening), recorded at import
@@ -136,6 +166,16 @@ FIRST = {
     "C17-6": "analysis-error -> documented defaults guarded by a size test are an L3 violation",
     "C19-4": "missed (C06.M4 / C15.D3 fired) -> C19 imports C06.M4 (recorded form shares nothing with the live tree)",
     "C19-6": "missed (C03.T2 fired) -> C19 imports the density rules",
+    "C01-4": "caught (through C09.P1/P2, imported into C01 on premise-graph grounds shortly before this change was met)",
+    "C01-5": "caught (through C09.P4 / TS, imported as above)",
+    "C07-6": "missed (C08.A2 fired) -> C07 imports the proposal-arm rules C08.A1/A2/X1",
+    "C05-4": "missed -> new rule E6 (cluster table de-duplicated on per-mutation columns)",
+    "C10-5": "missed -> new rule C14.K6 (order-insensitive key needs an order-insensitive value, for every decorated function), imported by C10",
+    "C10-6": "analysis-error -> X2 reports a running maximum accumulated along the sample axis",
+    "C11-6": "caught (through C03.I1, imported into C11 on premise-graph grounds shortly before)",
+    "C13-5": "missed (C14.K1 fired) -> C13 imports C14.K1",
+    "C16-5": "missed (C11.A2 fired) -> C16 imports C11.A2 and C03.I1/I2",
+    "C20-5": "missed -> new rule F3 (one artefact: the writer writes / the readers read the trace path only)",
 }
 
 
